@@ -750,10 +750,10 @@ class C05(PropBase):
         return "P" if a == "P" else a
 
     def canon_impl(self, case, ans, profile):
-        return "P" if ans.startswith("P;;") else strip_functions(ans)
+        return "P" if ans.startswith("P;;") else ans      # 10 fields per frame, like the model driver's answer
 
     def impl_cmd(self, exe, profile):
-        return [exe, "--functions"]     # 10th field per frame: function base and name (judged by the oracle only)
+        return [exe, "--functions"]     # 10th field per frame: function base and name (compared with the model and judged by the oracle)
 
     def oracle(self, case, ans, profile):
         self._prof = profile        # the runner calls oracle, then canon_model/canon_impl, for the same (case, profile)
